@@ -128,6 +128,52 @@ func runC11(p *Program, r *Report) {
 			}
 		}
 	}
+	// functions that always pass through Do of a given Once before returning
+	// ("ensure" helpers): calling one is as good as calling Do directly
+	ensures := map[*ssa.Function]map[*ssa.Global]bool{}
+	for changed := true; changed; {
+		changed = false
+		for _, f := range p.SrcFuncs() {
+			if len(f.Blocks) == 0 {
+				continue
+			}
+			for _, b := range f.Blocks {
+				for _, in := range b.Instrs {
+					c, ok := in.(*ssa.Call)
+					if !ok {
+						continue
+					}
+					var onces []*ssa.Global
+					if g, _, ok := onceDoCall(c); ok {
+						onces = append(onces, g)
+					} else if cf := staticCallee(c); cf != nil {
+						for g := range ensures[cf] {
+							onces = append(onces, g)
+						}
+					}
+					for _, g := range onces {
+						if ensures[f][g] {
+							continue
+						}
+						// the call must dominate every return of f
+						all := true
+						for _, rb := range f.Blocks {
+							if ret, ok := rb.Instrs[len(rb.Instrs)-1].(*ssa.Return); ok && !dominatesInstr(c, ret) {
+								all = false
+							}
+						}
+						if all {
+							if ensures[f] == nil {
+								ensures[f] = map[*ssa.Global]bool{}
+							}
+							ensures[f][g] = true
+							changed = true
+						}
+					}
+				}
+			}
+		}
+	}
 	closureOnce := map[*ssa.Function]*ssa.Global{}
 	for _, s := range doSites {
 		if s.Closure != nil {
@@ -187,6 +233,16 @@ func runC11(p *Program, r *Report) {
 			for _, s := range doSites {
 				if s.Once == once && s.In == a.Fn && dominatesInstr(s.Call, a.Instr) {
 					dominated = true
+				}
+			}
+			// or a dominating call of a helper that always runs Do(once)
+			for _, b := range a.Fn.Blocks {
+				for _, in := range b.Instrs {
+					if c, ok := in.(*ssa.Call); ok {
+						if cf := staticCallee(c); cf != nil && ensures[cf][once] && dominatesInstr(c, a.Instr) {
+							dominated = true
+						}
+					}
 				}
 			}
 			r.Check(dominated, "C11.O1", lkey, p.InstrPos(a.Instr),
